@@ -387,6 +387,17 @@ impl rustc_driver::Callbacks for Cb {
                 _ => {}
             }
         }
+        // functions callable from outside the crate (effective visibility, as opposed to `pub` inside a private module)
+        {
+            let ev = tcx.effective_visibilities(());
+            let mut names: Vec<String> = Vec::new();
+            for id in tcx.hir_crate_items(()).definitions() {
+                if matches!(tcx.def_kind(id), DefKind::Fn | DefKind::AssocFn) && ev.is_reachable(id) {
+                    names.push(js(&tcx.def_path_str(id.to_def_id())));
+                }
+            }
+            extra.push(format!("{{\"reachable_fns\":[{}]}}", names.join(",")));
+        }
         let path = std::env::var("S3SV_OUT").expect("S3SV_OUT");
         let runid = std::env::var("S3SV_RUN_ID").unwrap_or_default();
         let mut all = OUT.lock().unwrap();
